@@ -60,6 +60,10 @@ func (a *MajorityStrategy) Compute(snapshots <-chan *asset.Snapshot) <-chan Acti
 				result <- Hold
 			}
 		}
+
+		for _, source := range sources {
+			go helper.Drain(source)
+		}
 	}()
 
 	return result
